@@ -97,6 +97,10 @@ def classify(fail):
     """Signature of a failing case: failure class + the non-default dimension values that matter (coarse)."""
     t = fail["label"]
     v = {n: DIMS[i][1][t[i]] for i, n in enumerate(NAMES)}
+    if v["before"] == "m!( a = " and v["after"].startswith('; "') and fail["class"] == "count":
+        # one defect, whatever else varies: `other!( key = <statement>; "literal"` is matched as a whole by the log-statement rule, dropped
+        # because `other` is not configured, and the statement inside it is never looked at
+        return "statement-inside-log-shaped-invocation-of-unconfigured-macro:not-found:%s" % ("structured" if v["style"] else "unstructured")
     tags = []
     if v["msg"][:1] in (" ",) or v["msg"].startswith("\\t"):
         tags.append("msg-leading-blank")
